@@ -1381,6 +1381,22 @@ def main(argv):
             samples.append(r['sample'])
         found.extend(r['violations'])
 
+    # regression: traces of defects that were found and repaired must stay quiet (a fixed entry suppresses nothing)
+    import glob
+    for f in sorted(glob.glob(os.path.join(env.VERIF, 'replays', 'fixed', '*.json'))):
+        with open(f) as fh:
+            t = json.load(fh)
+        if t.get('property', PROP) != PROP:
+            continue
+        v, sim_ = execute(t['ops'], t['config'])
+        agg['runs'] += 1
+        agg['steps'] += sim_.steps
+        agg['checks'] += sim_.checks
+        probes['regression_replays'] += 1
+        if v:
+            t = dict(t, violation=v)
+            found.append(t)
+
     results, completed, errors = core.run_pool(_worker, range(a.start, a.start + T['runs']), workers=a.workers,
                                                chunk=T['chunk'], wall_cap=T['wall'], hang_s=300, on_result=on_result)
     explore_s = time.time() - t0
